@@ -102,6 +102,11 @@ def run(env, tier, seed, broken=None):
         texts.append(rng.choice(['', ' ', '\n']).join(parts))
     for sp in ['\x00', '\u00a0', '\ufeff', '@', '\\', "'", '\r', '\t']:
         texts += ['"a%sb" 1' % sp, '// a%sb\n1' % sp, '/* a%sb */ 1' % sp, 'x %s// c\n2' % sp, '"%s"' % sp, '"%s' % sp, '//%s' % sp, '/*%s*/' % sp, '1%s2' % sp, 'a%sb' % sp]
+    for sp in ['\u00a0', '\u2003', '\u3000', '\x0b', '\x0c', '\u0085', '\u2028', '\u1680', '\u200b']:
+        for bl in [' ', '\t', '\r', '\n', '']:
+            texts += ['1 +%s%s2' % (bl, sp), '%s%sx' % (bl, sp), 'x%s%s' % (bl, sp)]
+    for dg in ['\u0663', '\u096a', '\uff11', '\u0be7', '\u09f4', '\u00b2', '\u2460']:
+        texts += ['x' + dg, 'x' + dg + 'y', dg + 'x', '1' + dg, dg, '_' + dg, 'ক' + dg]
     for tail in ['1.', '1.;', 'a.', '"s".', '1..', '/* x *', '/* x */', '/*', '/', '//', '"', '1.5.', '৫.', 'x = 1.']:
         texts += [tail, 'y ' + tail, tail + '\n']
     mm, gd, acc = diff_front(env, texts)
